@@ -264,6 +264,8 @@ pub struct Cfg {
     pub data_budget: u8,
     pub modes: Vec<PMode>,
     pub late_greet: bool,
+    /// if non-empty: per-puppet permission to greet late (overrides `late_greet`)
+    pub late: Vec<bool>,
     /// probe may pull (anywhere)
     pub probe_pull: bool,
     /// at most one Pull per message (handshake/data) received
@@ -293,6 +295,7 @@ impl Default for Cfg {
             data_budget: 3,
             modes: vec![],
             late_greet: false,
+            late: vec![],
             probe_pull: true,
             pull_discipline: false,
             probe_err: true,
